@@ -69,6 +69,8 @@ if res.get('confirmed') and '--record' in sys.argv:
         for k in ('expect', 'own_check_note'):
             if k in old:
                 meta[k] = old[k]
-    meta.setdefault('expect', 'BREAKS' if res['own_check'].get('rc') == 1 else 'INCONCLUSIVE')
+    rc_own = res['own_check'].get('rc', 0)
+    if 'expect' not in meta or meta.get('expect') in ('MISSED', 'INCONCLUSIVE'):
+        meta['expect'] = 'BREAKS' if rc_own == 1 else ('INCONCLUSIVE' if rc_own == 2 else 'MISSED')
     json.dump(meta, open(mp, 'w'), indent=1)
     print('recorded', d)
